@@ -80,6 +80,8 @@ def api(call, fn, *a, **kw):
 #          passed with an empty batch
 #   dense_units: seed -> dense-time specifications are re-written for another default unit (same numbers on the time axis)
 #          with explicit, mixed and coarser units on the interval bounds
+#   cohost: seed -> every monitor object gets a twin (same requirement, same class) in the same process that receives the
+#          same calls with other sample values right before (and, offline, right after) each call of the observed object
 #   failed_eval: seed -> every offline object first evaluates another, damaged log (a sensor delivers None): the call raises
 #          half-way, the exception is swallowed, and the object is then used as if nothing had happened
 #   knobs: seed -> every upper-case integer tuning constant (>= 5, named like a limit / size / cache / threshold) found in the rtamt modules (cache sizes, scan limits,
@@ -88,6 +90,7 @@ def api(call, fn, *a, **kw):
 ENV = {}
 FAILED_USES = [0]
 UNIT_REWRITES = [0]
+COHOSTED = [0]
 _KNOB_SITES = None
 # only names that say "tuning constant": a unit factor or another semantic constant (NS_PER_S = 10**9) must never be shrunk
 import re as _re
@@ -123,6 +126,7 @@ def set_env(env):
     ENV = dict(env or {})
     FAILED_USES[0] = 0
     UNIT_REWRITES[0] = 0
+    COHOSTED[0] = 0
     undo = []
     if ENV.get('knobs') is not None:
         import random
@@ -325,7 +329,31 @@ def _failed_use(spec, desc):
 def build(desc):
     spec = _build(desc)
     _failed_use(spec, desc)
+    if ENV.get('cohost') is not None and not desc.get('prior'):
+        # run environment 'cohost': a second object of the same requirement lives in the same process and is fed the same calls
+        # with other sample values, right before and right after every call of the object under observation
+        try:
+            spec._verif_twin = _build(desc)
+            COHOSTED[0] += 1
+        except (ApiCrash, NumericOverflow):
+            pass
     return spec
+
+
+def _other(x):
+    if isinstance(x, bool) or not isinstance(x, (int, float)):
+        return x
+    return x + 1.0 if abs(x) < 1e15 else x
+
+
+def _twin(spec, fn):
+    tw = getattr(spec, '_verif_twin', None)
+    if tw is None:
+        return
+    try:
+        fn(tw)
+    except (ApiCrash, NumericOverflow):
+        pass
 
 
 def _build(desc):
@@ -417,19 +445,32 @@ def dt_evaluate(spec, times, data, order=None):
     if getattr(spec, '_verif_structs', None):
         data = dict((v, [_wrap(spec, v, x) for x in data[v]]) for v in data)
     ds = dt_dataset(times, data, order)
+    twin_ds = lambda: dict((k, ([_other(x) for x in c] if k != 'time' else list(c))) for k, c in ds.items())
+    if not getattr(spec, '_verif_structs', None):
+        _twin(spec, lambda tw: api('evaluate', tw.evaluate, twin_ds()))
     out = api('evaluate', spec.evaluate, ds)
+    if not getattr(spec, '_verif_structs', None):
+        _twin(spec, lambda tw: api('evaluate', tw.evaluate, twin_ds()))
     return out
 
 
 def dt_update(spec, t, inputs):
     if getattr(spec, '_verif_structs', None):
         inputs = [(v, _wrap(spec, v, x)) for v, x in inputs]
+    else:
+        _twin(spec, lambda tw: api('update', tw.update, t, [(v, _other(x)) for v, x in inputs]))
     return api('update', spec.update, t, inputs)
 
 
 def ct_evaluate(spec, signals, order=None):
     args = [[v, [[s[0], _wrap(spec, v, s[1])] for s in signals[v]]] for v in (order or sorted(signals))]
-    return api('evaluate', spec.evaluate, *args)
+    twin_args = lambda: [[v, [[s[0], _other(s[1])] for s in signals[v]]] for v in (order or sorted(signals))]
+    if not getattr(spec, '_verif_structs', None):
+        _twin(spec, lambda tw: api('evaluate', tw.evaluate, *twin_args()))
+    out = api('evaluate', spec.evaluate, *args)
+    if not getattr(spec, '_verif_structs', None):
+        _twin(spec, lambda tw: api('evaluate', tw.evaluate, *twin_args()))
+    return out
 
 
 def ct_update(spec, batches, order=None):
@@ -444,6 +485,8 @@ def ct_update(spec, batches, order=None):
         if keep:
             args = keep
         seen.update(a[0] for a in args)
+    if not getattr(spec, '_verif_structs', None):
+        _twin(spec, lambda tw: api('update', tw.update, *[[a[0], [[q[0], _other(q[1])] for q in a[1]]] for a in args]))
     return api('update', spec.update, *args)
 
 
